@@ -138,6 +138,8 @@ class Recorder:
             vc = 0.0
             for c in prob._constraints:
                 v = float(c.violation(values))
+                if not math.isfinite(v) or not math.isfinite(float(c.evaluate(values))):
+                    return 'viol_con'          # the constraint function is undefined at the point: not satisfied
                 scale = 1.0 + abs(float(c.evaluate(values)))
                 if v > self.FTOL * scale:
                     vc = max(vc, v)
@@ -147,6 +149,8 @@ class Recorder:
                 if n not in values:
                     continue
                 x = values[n]
+                if not math.isfinite(x):
+                    return 'viol_bnd'
                 if v.lb is not None and x < v.lb - self.FTOL * (1 + abs(v.lb)):
                     return 'viol_bnd'
                 if v.ub is not None and x > v.ub + self.FTOL * (1 + abs(v.ub)):
